@@ -203,7 +203,7 @@ def check(ctx, case):
 
 def shard_main(ctx):
     from hypothesis import given
-    n = {"quick": 400, "thorough": 10000}[ctx.tier]
+    n = {"quick": 1000, "thorough": 20000}[ctx.tier]
 
     @given(histories())
     def test(case):
